@@ -120,6 +120,15 @@ func (c *cases) oracle(s *sut, rows []stored, els []ldiff.Element, hash, entry s
 	} else if rb := rebuiltHash(rows); rb != hash {
 		c.r.Violate(prop, "F-ldiff-update", "kv.index-hash", "Diff().Hash() differs from the hash of an index rebuilt from the stored rows although the elements agree", s.ops)
 	}
+	if c.r.Chance(12) {
+		// the same statement through the real rebuild code path (a restart)
+		if rh, n, err := s.reopenedHash(); err != nil {
+			c.r.Violate(prop, "", "kv.reopen", "reopening the store failed: "+err.Error(), s.ops)
+		} else if rh != hash || n != len(els) {
+			c.r.Violate(prop, "F-ldiff-update", "kv.reopen", fmt.Sprintf("a reopened store advertises a different index (%d elements) than the live one (%d elements)", n, len(els)), s.ops)
+		}
+		c.r.Count("oracle.reopen")
+	}
 	if herr != nil {
 		c.r.Violate(prop, "", "kv.heads", "heads entry unreadable: "+herr.Error(), s.ops)
 	} else if rb := rebuiltHash(rows); entry != rb {
